@@ -247,7 +247,85 @@ fn ray_set(from: Sq, d: (i8, i8)) -> u64 {
     o
 }
 
+/// For a slider that is lined up with an enemy king (blocked or not), put a second slider of the same
+/// kind on the *opposite* ray of that king, shielded by a knight next to the king: code that picks "the"
+/// slider on a line (first bit, lowest square) instead of looking along each ray is then exercised.
+fn add_opposite_sliders(rng: &mut Rng, p: &mut RPos) {
+    for c in 0..2u8 {
+        let k = match p.king_sq(c) {
+            Some(k) => k,
+            None => continue,
+        };
+        let (kf, kr) = fr(k);
+        for d in KG.iter() {
+            // nearest slider of the other colour on this ray that moves along it
+            let diag = d.0 != 0 && d.1 != 0;
+            let (mut f, mut r) = (kf + d.0, kr + d.1);
+            let mut found = None;
+            while let Some(t) = mk(f, r) {
+                let x = p.sq[t as usize];
+                if x != 0 && color(x) != c && (kind(x) == Q || kind(x) == if diag { B } else { R }) {
+                    found = Some(kind(x));
+                    // a battery: one more slider of that kind right behind it on the same ray
+                    if rng.chance(1, 3) && p.men(c ^ 1) < 15 {
+                        if let Some(b2) = mk(f + d.0, r + d.1) {
+                            if p.sq[b2 as usize] == 0 {
+                                p.sq[b2 as usize] = pc(if rng.chance(1, 2) { Q } else if diag { B } else { R }, c ^ 1);
+                            }
+                        }
+                    }
+                    break;
+                }
+                f += d.0;
+                r += d.1;
+            }
+            let sk = match found {
+                Some(sk) if rng.chance(1, 3) => sk,
+                _ => continue,
+            };
+            let near = match mk(kf - d.0, kr - d.1) {
+                Some(s) => s,
+                None => continue,
+            };
+            let mut fars = vec![];
+            let (mut f, mut r) = (kf - 2 * d.0, kr - 2 * d.1);
+            while let Some(t) = mk(f, r) {
+                if p.sq[t as usize] == 0 {
+                    fars.push(t);
+                }
+                f -= d.0;
+                r -= d.1;
+            }
+            if fars.is_empty() || p.sq[near as usize] != 0 || p.men(c ^ 1) >= 15 {
+                continue;
+            }
+            let far = *rng.pick(&fars);
+            p.sq[near as usize] = pc(N, rng.below(2) as u8);
+            p.sq[far as usize] = pc(sk, c ^ 1);
+        }
+    }
+}
+
 fn finish(rng: &mut Rng, mut st: Start) -> Option<Start> {
+    if rng.chance(1, 4) {
+        let backup = st.pos.clone();
+        add_opposite_sliders(rng, &mut st.pos);
+        // keep the decoration only if the recipe (validity, legality of the prelude) survives it
+        let mut ok = st.pos.valid();
+        if ok {
+            let mut q = st.pos.clone();
+            for m in &st.prelude {
+                if !q.is_legal(*m) {
+                    ok = false;
+                    break;
+                }
+                q = q.make(*m);
+            }
+        }
+        if !ok {
+            st.pos = backup;
+        }
+    }
     fix_rights(&mut st.pos);
     if !st.pos.valid() {
         return None;
@@ -347,6 +425,25 @@ pub fn scenario(rng: &mut Rng, id: usize) -> Option<Start> {
             p.sq[sqm(wf, 4) as usize] = pc(P, WHITE);
             p.sq[sqm(bf, 6) as usize] = pc(P, BLACK);
             let mut reserved = 0xffu64 << 32 | bit(sqm(bf, 5)) | bit(sqm(bf, 6)) | bit(sqm(wf, 5));
+            // variant: a second enemy rook/queen on the same rank beyond the king (it must not give check:
+            // keep at least one man between, or let it stand next to a blocker)
+            if rng.chance(1, 4) {
+                let side: i8 = if sf > kf { -1 } else { 1 };
+                let mut far: Vec<i8> = vec![];
+                let mut x = kf + side;
+                while x >= 0 && x < 8 {
+                    far.push(x);
+                    x += side;
+                }
+                if far.len() >= 2 {
+                    let blocker = far[0];
+                    let second = far[rng.range(1, far.len() - 1)];
+                    if p.sq[sqm(blocker, 4) as usize] == 0 && p.sq[sqm(second, 4) as usize] == 0 {
+                        p.sq[sqm(blocker, 4) as usize] = pc(*rng.pick(&[N, B]), rng.below(2) as u8);
+                        p.sq[sqm(second, 4) as usize] = pc(*rng.pick(&[R, Q]), BLACK);
+                    }
+                }
+            }
             // variant: a capturer on each side of the pushed pawn (three men between king and slider: both captures legal)
             if rng.chance(1, 4) {
                 let of = bf + (bf - wf);
